@@ -416,6 +416,6 @@ const char* STUB18 = "VFS (in-memory tree behind fopencookie), clock";
 
 } // namespace
 
-REGISTER_SCENARIO(c18_ini, "C18", "ini", genIni, runIni, 60000, 3000000, {1}, 0, 2000000, 300.0,
+REGISTER_SCENARIO(c18_ini, "C18", "ini", genIni, runIni, 100000, 6000000, {1}, 0, 2000000, 300.0,
                   "non-trivial: the INI text pre-exists with >=1 key that is not touched and >=1 set() call; distinct by plan hash x (final newline, CRLF)", REAL18, STUB18, false);
-REGISTER_SCENARIO(c18_csv, "C18", "csv", genCsv, runCsv, 30000, 1500000, {1}, 0, 2000000, 300.0, "non-trivial: the table has a cell that needs quoting (contains the separator or a quote); distinct by plan hash", REAL18, STUB18, false);
+REGISTER_SCENARIO(c18_csv, "C18", "csv", genCsv, runCsv, 40000, 3000000, {1}, 0, 2000000, 300.0, "non-trivial: the table has a cell that needs quoting (contains the separator or a quote); distinct by plan hash", REAL18, STUB18, false);
